@@ -103,10 +103,11 @@ _fp = Contract(U_, 'flatten_path', {'path': TStr(), 'flatten_slashes': TBool()},
         ('no-empty', 'implies(flatten_slashes, forall(0, len(new_parts), lambda k: new_parts[k] != ""))'),
     ]}},
     ensures=[
-        ('shape', 'result == "/" or (result == "/".join(segs) and len(segs) >= 2 and segs[0] == "")', {'C10'}),
-        ('no-dot-segments', 'implies(result != "/", forall(1, len(segs), lambda k: segs[k] != "." and segs[k] != ".." and not ("/" in segs[k])))', {'C10'}),
-        ('no-empty-segments', 'implies(result != "/" and flatten_slashes, forall(1, len(segs) - 1, lambda k: segs[k] != ""))', {'C10'}),
-    ], raises={}, ghost_out={'segs': (TList(TStr()), 'new_parts')})
+        # stated over the RESULT alone (its split at "/"), not over the local list the function happens to build it from
+        ('shape', 'startswith(result, "/")', {'C10'}),
+        ('no-dot-segments', 'forall(result.split("/"), lambda s_: s_ != "." and s_ != "..")', {'C10'}),
+        ('no-empty-segments', 'implies(flatten_slashes, forall(1, len(result.split("/")) - 1, lambda k: result.split("/")[k] != ""))', {'C10'}),
+    ], raises={})
 Contract(U_, 'normalize_path', {'path': TStr(), 'encoding': TStr()}, ret=TStr(), prop='C10/C11', defaults={'encoding': 'utf-8'}, requires=ENC,
          ensures=[('printable-no-space', 'in_re(result, %s)' % PRINT, {'C10'})], raises={'UnicodeEncodeError': []})
 
